@@ -48,8 +48,16 @@ func val(b *strings.Builder, v reflect.Value, depth int) {
 			b.WriteString("false")
 		}
 	case reflect.Int, reflect.Int8, reflect.Int16, reflect.Int32, reflect.Int64:
+		if asDouble {
+			b.WriteString(strconv.FormatFloat(float64(v.Int()), 'g', -1, 64))
+			return
+		}
 		b.WriteString(strconv.FormatInt(v.Int(), 10))
 	case reflect.Uint, reflect.Uint8, reflect.Uint16, reflect.Uint32, reflect.Uint64, reflect.Uintptr:
+		if asDouble {
+			b.WriteString(strconv.FormatFloat(float64(v.Uint()), 'g', -1, 64))
+			return
+		}
 		b.WriteString(strconv.FormatUint(v.Uint(), 10))
 	case reflect.Float32, reflect.Float64:
 		f := v.Float()
@@ -62,6 +70,8 @@ func val(b *strings.Builder, v reflect.Value, depth int) {
 			} else {
 				b.WriteString("-Inf")
 			}
+		case asDouble:
+			b.WriteString(strconv.FormatFloat(f, 'g', -1, 64))
 		case f == math.Trunc(f) && math.Abs(f) < 9.2e18:
 			b.WriteString(strconv.FormatInt(int64(f), 10))
 		default:
@@ -205,6 +215,16 @@ func Msg(m wamp.Message) string {
 	b.WriteByte(')')
 	return b.String()
 }
+
+// MsgF renders a message like Msg but with every number rendered as the
+// nearest double (used where integers beyond 2^53 stand for floats).
+func MsgF(m wamp.Message) string {
+	asDouble = true
+	defer func() { asDouble = false }()
+	return Msg(m)
+}
+
+var asDouble bool // only toggled by MsgF from single-threaded pure checks
 
 // Num extracts a number from any numeric Go kind as float64 plus exact
 // integer value when integral.
